@@ -2724,6 +2724,91 @@ def inline_trivial_methods(tree: ast.Module) -> int:
                     count[0] += 1
                     return new
             R().visit(m)
+    # `_helper(args)` for a one-expression private module-level function (`def _new_queue(): return asyncio.Queue()`,
+    # `def _marker_is_ours(table, key, ev): return table.get(key, (None, None))[1] is ev`): read in place wherever it is called by name
+    mod_defs: Dict[str, int] = {}
+    for st in ast.walk(tree):
+        if isinstance(st, _FN + (ast.ClassDef,)):
+            mod_defs[st.name] = mod_defs.get(st.name, 0) + 1
+    mod_single = _module_single_names(tree)
+    mcands: Dict[str, ast.FunctionDef] = {}
+    for st in tree.body:
+        if not (isinstance(st, ast.FunctionDef) and st.name.startswith('_') and not st.name.startswith('__') and not st.decorator_list):
+            continue
+        if mod_defs.get(st.name) != 1 or st.name not in mod_single:
+            continue
+        a = st.args
+        if a.posonlyargs or a.kwonlyargs or a.kwarg or a.vararg or a.defaults:
+            continue
+        body = [x for x in st.body if not (isinstance(x, ast.Expr) and isinstance(x.value, ast.Constant))]
+        if len(body) != 1 or not isinstance(body[0], ast.Return) or body[0].value is None:
+            continue
+        e = body[0].value
+        if any(isinstance(x, (ast.Await, ast.Yield, ast.YieldFrom, ast.Lambda, ast.ListComp, ast.SetComp, ast.DictComp, ast.GeneratorExp, ast.NamedExpr))
+               for x in ast.walk(e)):
+            continue
+        if any(isinstance(x, ast.Name) and x.id == st.name for x in ast.walk(e)):
+            continue
+        # used only as a callee (a helper that is also passed around keeps its identity)
+        uses = [x for x in ast.walk(tree) if isinstance(x, ast.Name) and x.id == st.name and isinstance(x.ctx, ast.Load)]
+        if not uses or any(not (isinstance(getattr(x, '_alias_parent', None), ast.Call) and getattr(x, '_alias_parent').func is x) for x in uses):
+            continue
+        mcands[st.name] = st
+    if mcands:
+        class RM(ast.NodeTransformer):
+            def __init__(self):
+                self.shadow = [set()]
+
+            def _fn(self, node):
+                self.shadow.append(self.shadow[-1] | set(_bound_names(node)))
+                self.generic_visit(node)
+                self.shadow.pop()
+                return node
+            visit_FunctionDef = visit_AsyncFunctionDef = _fn
+
+            def visit_Call(self, n: ast.Call):
+                self.generic_visit(n)
+                f = n.func
+                if not (isinstance(f, ast.Name) and f.id in mcands and f.id not in self.shadow[-1]):
+                    return n
+                st = mcands[f.id]
+                params = [x.arg for x in st.args.args]
+                if n.keywords and any(k.arg is None or k.arg not in params for k in n.keywords):
+                    return n
+                if any(isinstance(x, ast.Starred) for x in n.args) or len(n.args) > len(params):
+                    return n
+                binding = dict(zip(params, n.args))
+                for k in n.keywords:
+                    if k.arg in binding:
+                        return n
+                    binding[k.arg] = k.value
+                if set(binding) != set(params):
+                    return n
+                e = st.body[-1].value
+                # names of the helper's expression must mean the same at the call site: parameters aside, they are module-level
+                free = {x.id for x in ast.walk(e) if isinstance(x, ast.Name)} - set(params)
+                if free & self.shadow[-1]:
+                    return n
+                for p_ in params:
+                    uses_ = sum(1 for x in ast.walk(e) if isinstance(x, ast.Name) and x.id == p_)
+                    if uses_ != 1 and not plain(binding[p_]):
+                        return n
+                new = _clone_expr(e)
+
+                class S(ast.NodeTransformer):
+                    def visit_Name(self, x: ast.Name):
+                        if x.id in binding:
+                            return _clone_expr(binding[x.id])
+                        return x
+                new = S().visit(new)
+                for y in ast.walk(new):
+                    ast.copy_location(y, n)
+                count[0] += 1
+                return new
+        for top in tree.body:
+            if isinstance(top, ast.FunctionDef) and top.name in mcands:
+                continue
+            RM().visit(top)
     # `Cls.helper(args)` for a one-expression classmethod / staticmethod of a private class (`_FlushMode.from_cancel(cancel)`)
     for c in classes:
         if not c.name.startswith('_'):
@@ -2905,6 +2990,140 @@ def fold_constant_choices(tree: ast.Module) -> int:
                         count[0] += 1
                         return ast.copy_location(new, n)
             return n
+    R().visit(tree)
+    if count[0]:
+        ast.fix_missing_locations(tree)
+    return count[0]
+
+
+
+def drop_identity_conversions(tree: ast.Module) -> int:
+    """Conversions that return their argument unchanged: `float(<number literal>)` / `int(<int literal>)` are the literal,
+    `float(time.time())` / `float(time.monotonic())` is the clock reading (already a float), `tuple(args)` of a function's own
+    `*args` is that tuple."""
+    count = [0]
+    clocks = {'time.time', 'time.monotonic', 'time.perf_counter', 'monotonic', 'perf_counter'}
+
+    class R(ast.NodeTransformer):
+        def __init__(self):
+            self.varargs = [set()]
+
+        def _fn(self, node):
+            va = {node.args.vararg.arg} if node.args.vararg else set()
+            # a re-bound *args is not the caller's tuple any more
+            if va and any(isinstance(x, ast.Name) and x.id in va and isinstance(x.ctx, (ast.Store, ast.Del)) for x in ast.walk(node)):
+                va = set()
+            self.varargs.append(va)
+            self.generic_visit(node)
+            self.varargs.pop()
+            return node
+        visit_FunctionDef = visit_AsyncFunctionDef = _fn
+
+        def visit_Call(self, n: ast.Call):
+            self.generic_visit(n)
+            if not (isinstance(n.func, ast.Name) and len(n.args) == 1 and not n.keywords):
+                return n
+            a = n.args[0]
+            if n.func.id == 'float' and isinstance(a, ast.Constant) and isinstance(a.value, (int, float)) and not isinstance(a.value, bool):
+                count[0] += 1
+                return ast.copy_location(ast.Constant(value=a.value if isinstance(a.value, float) or abs(a.value) > 2 ** 53 else a.value), n)
+            if n.func.id == 'int' and isinstance(a, ast.Constant) and isinstance(a.value, int) and not isinstance(a.value, bool):
+                count[0] += 1
+                return ast.copy_location(ast.Constant(value=a.value), n)
+            if n.func.id == 'float' and isinstance(a, ast.Call) and not a.args and not a.keywords and (_dotted_expr(a.func) or '') in clocks:
+                count[0] += 1
+                return a
+            if n.func.id == 'tuple' and isinstance(a, ast.Name) and a.id in self.varargs[-1]:
+                count[0] += 1
+                return a
+            return n
+    R().visit(tree)
+    if count[0]:
+        ast.fix_missing_locations(tree)
+    return count[0]
+
+
+
+def inline_empty_subclasses(tree: ast.Module) -> int:
+    """`class _Registry(WeakKeyDictionary): <docstring only>` - a private subclass of a library / builtin container that adds nothing -
+    is that container wherever it is instantiated: `_Registry()` reads `WeakKeyDictionary()`.  (Generic aliases of typing are
+    the builtin they stand for: `Dict[int, Lock]` -> `dict`.)"""
+    TYPING = {'Dict': 'dict', 'List': 'list', 'Set': 'set', 'FrozenSet': 'frozenset', 'Deque': None, 'DefaultDict': None, 'OrderedDict': None}
+    count = [0]
+    cands: Dict[str, ast.expr] = {}
+    for st in tree.body:
+        if not (isinstance(st, ast.ClassDef) and st.name.startswith('_') and len(st.bases) == 1 and not st.keywords and not st.decorator_list):
+            continue
+        body = [x for x in st.body if not (isinstance(x, ast.Expr) and isinstance(x.value, ast.Constant)) and not isinstance(x, ast.Pass)
+                and not (isinstance(x, ast.Assign) and len(x.targets) == 1 and isinstance(x.targets[0], ast.Name) and x.targets[0].id == '__slots__')]
+        if body:
+            continue
+        b = st.bases[0]
+        if isinstance(b, ast.Subscript):
+            b = b.value
+        d = _dotted_expr(b)
+        if d is None:
+            continue
+        last = d.split('.')[-1]
+        if last in TYPING:
+            if TYPING[last] is None:
+                continue
+            b = ast.Name(id=TYPING[last], ctx=ast.Load())
+        elif last in ('NamedTuple', 'Protocol', 'Enum', 'Generic', 'object', 'Exception', 'BaseException') or last.endswith('Error'):
+            continue
+        cands[st.name] = b
+    if not cands:
+        return 0
+    # only classes that are never subclassed further, never used in isinstance / except, only called
+    for x in ast.walk(tree):
+        if isinstance(x, ast.ClassDef):
+            for bb in x.bases:
+                for y in ast.walk(bb):
+                    if isinstance(y, ast.Name) and y.id in cands:
+                        cands.pop(y.id, None)
+    set_alias_parents(tree)
+
+    class R(ast.NodeTransformer):
+        def visit_Call(self, n: ast.Call):
+            self.generic_visit(n)
+            if isinstance(n.func, ast.Name) and n.func.id in cands:
+                new = _clone_expr(cands[n.func.id])
+                for y in ast.walk(new):
+                    ast.copy_location(y, n.func)
+                n.func = new
+                count[0] += 1
+            return n
+    R().visit(tree)
+    if count[0]:
+        ast.fix_missing_locations(tree)
+    return count[0]
+
+
+
+def calls_to_comprehensions(tree: ast.Module) -> int:
+    """`list(<generator expression>)` is the list comprehension, `set(...)` the set comprehension, `dict((k, v) for ...)` the dict
+    comprehension (the builtins must not be shadowed in the module)."""
+    shadowed = {x.id for x in ast.walk(tree) if isinstance(x, ast.Name) and isinstance(x.ctx, (ast.Store, ast.Del)) and x.id in ('list', 'set', 'dict')} | \
+               {x.name for x in ast.walk(tree) if isinstance(x, _FN + (ast.ClassDef,)) and x.name in ('list', 'set', 'dict')}
+    count = [0]
+
+    class R(ast.NodeTransformer):
+        def visit_Call(self, n: ast.Call):
+            self.generic_visit(n)
+            if not (isinstance(n.func, ast.Name) and n.func.id in ('list', 'set', 'dict') and n.func.id not in shadowed and len(n.args) == 1
+                    and not n.keywords and isinstance(n.args[0], ast.GeneratorExp)):
+                return n
+            ge = n.args[0]
+            if n.func.id == 'list':
+                new = ast.ListComp(elt=ge.elt, generators=ge.generators)
+            elif n.func.id == 'set':
+                new = ast.SetComp(elt=ge.elt, generators=ge.generators)
+            elif isinstance(ge.elt, ast.Tuple) and len(ge.elt.elts) == 2 and not any(isinstance(x, ast.Starred) for x in ge.elt.elts):
+                new = ast.DictComp(key=ge.elt.elts[0], value=ge.elt.elts[1], generators=ge.generators)
+            else:
+                return n
+            count[0] += 1
+            return ast.copy_location(new, n)
     R().visit(tree)
     if count[0]:
         ast.fix_missing_locations(tree)
